@@ -77,6 +77,25 @@ Theorem static_binds_runtime_class : forall t r c f s, wf t = true -> get_class 
 Proof. exact static_binds_l. Qed.
 Print Assumptions static_binds_runtime_class.
 
+(* the same bindings one call deeper: the body found for $o->f() calls parent::g(), and the body of
+   that g calls static::s() (still the RUNTIME class r), self::s() (the class g was found in) or
+   parent::h() (the parent of the class g was found in) *)
+Theorem static_survives_parent_call : forall t r c f g s d p, wf t = true -> get_class t r = Some c ->
+  static_name t s = true -> resolve t r f = Some d -> parent_of t d = Some p ->
+  via_parent_static t r f g s = Ok (match resolve t p g with Some _ => resolve t r s | None => None end).
+Proof. exact parent_then_static_l. Qed.
+Print Assumptions static_survives_parent_call.
+Theorem self_after_parent_call : forall t r c f g s d p, wf t = true -> get_class t r = Some c ->
+  static_name t s = true -> resolve t r f = Some d -> parent_of t d = Some p ->
+  via_parent_self t r f g s = Ok (match resolve t p g with Some e => resolve t e s | None => None end).
+Proof. exact parent_then_self_l. Qed.
+Print Assumptions self_after_parent_call.
+Theorem parent_after_parent_call : forall t r c f g h d p e p', wf t = true -> get_class t r = Some c ->
+  resolve t r f = Some d -> parent_of t d = Some p -> resolve t p g = Some e -> parent_of t e = Some p' ->
+  via_parent_parent t r f g h = Ok (resolve t p' h).
+Proof. exact parent_then_parent_l. Qed.
+Print Assumptions parent_after_parent_call.
+
 (* "$o like T holds exactly when the object provides, itself or by inheritance, every method T
    declares with the same number of parameters" (after fix d3e2cea) *)
 Theorem like_structural : forall t n c T, wf t = true -> get_class t n = Some c ->
